@@ -464,6 +464,9 @@ class OrderInterp:
                 return SCALAR
             if name in ELEMENTWISE_TM and e.args:
                 return argtags[0]
+            if name in ("bpm_changes_snap",) and not e.args:
+                # a timing map keeps its tempo changes sorted by time (from_bpm_changes_offset / bpm_changes_offset_to_snap sort)
+                return Tag("sorted", rt.base or rtxt, "time")
             if name == "stack" and rk[0] in ("chart", "mapset"):
                 return Tag("rows", self.txt(e))
             if name in ("sort_values", "sorted", "sort_index"):
